@@ -89,6 +89,51 @@ func Run(root *plan.Node, payload string, deny map[string]bool) (out []byte, pan
 	return buf.Bytes(), "", nil
 }
 
+// errorItems reduces each error object to (kind, path).
+func errorItems(e gjson.Result) []string {
+	var items []string
+	e.ForEach(func(_, item gjson.Result) bool {
+		ps := []string{"path"}
+		item.Get("path").ForEach(func(_, pe gjson.Result) bool {
+			if pe.Type == gjson.String {
+				ps = append(ps, common.L("n", common.QS(pe.String())))
+			} else {
+				ps = append(ps, common.L("i", common.I(int(pe.Int()))))
+			}
+			return true
+		})
+		items = append(items, common.L("e", common.I(errKind(item.Get("message").String())), common.L(ps...)))
+		return true
+	})
+	return items
+}
+
+// brokenDataMember cuts the data member out of an output that is not valid JSON as a whole.
+func brokenDataMember(out []byte) (data string, errs []string) {
+	rest := out
+	if bytes.HasPrefix(rest, []byte(`{"errors":`)) {
+		dec := json.NewDecoder(bytes.NewReader(rest[len(`{"errors":`):]))
+		var arr json.RawMessage
+		if dec.Decode(&arr) != nil {
+			return "", nil
+		}
+		rest = rest[len(`{"errors":`)+int(dec.InputOffset()):]
+		if !bytes.HasPrefix(rest, []byte(`,"data":`)) {
+			return "", nil
+		}
+		rest = rest[len(`,"data":`):]
+		errs = errorItems(gjson.ParseBytes(arr))
+	} else if bytes.HasPrefix(rest, []byte(`{"data":`)) {
+		rest = rest[len(`{"data":`):]
+	} else {
+		return "", nil
+	}
+	if len(rest) == 0 || rest[len(rest)-1] != '}' {
+		return "", nil
+	}
+	return string(rest[:len(rest)-1]), errs
+}
+
 func observe(root *plan.Node, payload string, deny map[string]bool, labels []string) string {
 	out, pmsg, err := Run(root, payload, deny)
 	pv, perr := astjson.Parse(payload)
@@ -115,19 +160,7 @@ func observe(root *plan.Node, payload string, deny map[string]bool, labels []str
 		errsRaw := ""
 		if e := res.Get("errors"); e.Exists() {
 			errsRaw = e.Raw
-			e.ForEach(func(_, item gjson.Result) bool {
-				ps := []string{"path"}
-				item.Get("path").ForEach(func(_, pe gjson.Result) bool {
-					if pe.Type == gjson.String {
-						ps = append(ps, common.L("n", common.QS(pe.String())))
-					} else {
-						ps = append(ps, common.L("i", common.I(int(pe.Int()))))
-					}
-					return true
-				})
-				errsS = append(errsS, common.L("e", common.I(errKind(item.Get("message").String())), common.L(ps...)))
-				return true
-			})
+			errsS = append(errsS, errorItems(e)...)
 		}
 		want := "{"
 		if errsRaw != "" {
@@ -135,6 +168,13 @@ func observe(root *plan.Node, payload string, deny map[string]bool, labels []str
 		}
 		want += `"data":` + dataRaw + "}"
 		envOK = want == string(out)
+	}
+	if !valid && pmsg == "" && err == nil {
+		// not JSON: still hand the bytes written for the data member and the errors to the correspondence
+		// ({"errors":<valid JSON array>,"data":<bytes>} or {"data":<bytes>})
+		var es []string
+		dataRaw, es = brokenDataMember(out)
+		errsS = append(errsS, es...)
 	}
 	status := "ok"
 	if pmsg != "" {
@@ -150,7 +190,7 @@ func observe(root *plan.Node, payload string, deny map[string]bool, labels []str
 
 func main() {
 	if len(os.Args) < 2 {
-		fmt.Fprintln(os.Stderr, "usage: c02 gen -seed S -n N -out F [-auth 1] [-depth D]")
+		fmt.Fprintln(os.Stderr, "usage: c02 gen -seed S -n N -out F [-auth 1] [-depth D] [-paths 1 [-overlap 1] [-stats F]]")
 		os.Exit(2)
 	}
 	a := common.Args(os.Args[2:])
@@ -162,6 +202,18 @@ func main() {
 		n := common.ArgInt(a, "n", 1000)
 		auth := common.ArgInt(a, "auth", 0) == 1
 		g := &plan.Gen{R: r, MaxDepth: common.ArgInt(a, "depth", 5), Auth: auth}
+		if common.ArgInt(a, "paths", 0) == 1 {
+			// data paths of length 0..3 on every node (harness/plan/paths.go)
+			g.Paths = true
+			g.Overlap = common.ArgInt(a, "overlap", 0) == 1
+			g.Stats = &plan.PathStats{}
+		}
+		defer func() {
+			if g.Stats != nil && a["stats"] != "" {
+				b, _ := json.Marshal(g.Stats)
+				_ = os.WriteFile(a["stats"], b, 0o644)
+			}
+		}()
 		for i := 0; i < n; {
 			tree := g.Tree()
 			// several payloads per tree
@@ -178,6 +230,9 @@ func main() {
 							}
 						}
 					}
+				}
+				if g.Overlap {
+					labels = append(labels, "overlap")
 				}
 				line := observe(tree, payload, deny, labels)
 				if line != "" {
